@@ -225,6 +225,12 @@ class C14(EngineBase):
                 del heap[n]
             before = {n: s for n, s in before.items() if n in heap}
             self._compare_heap(st, before, step, what="raised-inplace")
+            if twin is not None and twin_exc is None and S.kind_of(expected) in "AFV":
+                # "in place, exactly the value it would have returned out of
+                # place": the out-of-place form returns, the in-place form raises
+                self.report(st, "inplace-equals-outofplace", op,
+                            f"out-of-place form returns a value but the in-place form raised "
+                            f"{type(e).__name__}: {str(e)[:100]}", ["in-place", "raise-mismatch"])
             return
         st.stats["step.ok"] += 1
         st.stats["op." + op + ".inplace"] += 1
@@ -233,6 +239,11 @@ class C14(EngineBase):
         same = [n for n, v in heap.items() if v is target and n != tname]
         force = set(same) if any(n in st.libalias for n in same + [tname]) else set()
         self._compare_heap(st, before, step, skip_ids={id(target)}, what="in-place", force_names=force)
+        if twin is not None and twin_exc is not None:
+            # ... and the other way round: no value out of place, one in place
+            self.report(st, "inplace-equals-outofplace", op,
+                        f"out-of-place form raised {type(twin_exc).__name__}: {str(twin_exc)[:100]} "
+                        f"but the in-place form succeeded", ["in-place", "raise-mismatch"])
         if twin is not None and twin_exc is None and S.kind_of(expected) in "AFV":
             # the statement is about the value found in place; what the call
             # returns (self, by convention) is not part of it
